@@ -219,6 +219,10 @@ type region struct {
 	// written / passed: `m.AddQuery(append(prefix, origin), c)` rather than `m.AddQuery(query, c)`);
 	// `delete(m, k)` makes later reads of `m[k]` a new opaque value.
 	SubstLabels bool
+	// Captured: locals of the region that a closure of the function reads (a flag tested by a deferred
+	// closure): an assignment to one is substituted at its uses like any local *and* is an effect
+	// (its text), so that an obligation can follow the value the closure will see.
+	Captured []string
 }
 
 // ---------------------------------------------------------------- environment
@@ -1079,10 +1083,12 @@ func (t *tr) assign(s *ast.AssignStmt, e *env, k cont) node {
 		if id, ok := l.(*ast.Ident); ok {
 			if tok == token.DEFINE && e.declaredAt(id.Name) != len(e.scopes)-1 {
 				e.declare(id.Name, vals[i])
+				eff = eff || t.calleeIn(id.Name, t.r.Captured)
 				continue
 			}
 			if e.declaredAt(id.Name) > 0 {
 				e.set(id.Name, vals[i])
+				eff = eff || t.calleeIn(id.Name, t.r.Captured)
 				continue
 			}
 		}
